@@ -10,10 +10,13 @@ Replace(b) == { [b EXCEPT ![i] = t] : i \in 1..Len(b), t \in Tokens }
 InsertT(b) == { SubSeq(b, 1, i) \o <<t>> \o SubSeq(b, i + 1, Len(b)) : i \in 0..Len(b), t \in Tokens }
 DeleteT(b) == { SubSeq(b, 1, i - 1) \o SubSeq(b, i + 1, Len(b)) : i \in 1..Len(b) }
 Perms(b) == { [i \in 1..Len(b) |-> b[p[i]]] : p \in { q \in [1..Len(b) -> 1..Len(b)] : \A x, y \in 1..Len(b) : x # y => q[x] # q[y] } }
+\* one fault at a time around the three principal command lines: always run, also in the quick tier
+CoreBases == { <<"e", "iF", "oO", "kK">>, <<"d", "iE", "oO", "kK">>, <<"v", "iE", "kK">> }
+Core == UNION { Replace(b) \cup InsertT(b) \cup DeleteT(b) : b \in CoreBases }
 AllRaw == UNION { Replace(b) \cup InsertT(b) \cup DeleteT(b) \cup Perms(b) : b \in Bases } \cup Seqs(2)
 \* the empty argument vector starts the interactive prompt mode, which the property excludes
 All == AllRaw \ { <<>> }
-Vectors == SetToSeq({ [tokens |-> v, class |-> Class(v)] : v \in All })
+Vectors == SetToSeq({ [tokens |-> v, class |-> Class(v), core |-> IF v \in Core THEN 1 ELSE 0] : v \in All })
 ASSUME JsonSerialize(IOEnv.OUT, Vectors)
-ASSUME PrintT(<<"VECTORS", Len(Vectors), Cardinality({v \in All : Class(v) = "OK"}), Cardinality({v \in All : Class(v) = "MAY"})>>)
+ASSUME PrintT(<<"VECTORS", Len(Vectors), Cardinality({v \in All : Class(v) = "OK"}), Cardinality({v \in All : Class(v) = "MAY"}), Cardinality(Core)>>)
 =============================================================================
